@@ -175,6 +175,8 @@ package openapiv3
 //@   modifies *
 //@   let info = extractMethodHTTPInfo(service, method)
 //@   at-call buildPathParameters requires template_vars: arg1 == info.pathParams
+//@   at-call buildQueryParameters requires for_this_method: arg0 == method
+//@   at-call assignOperationToPathItem requires query_parameters_published: count("buildQueryParameters") == old(count("buildQueryParameters")) + 1 && len(arg2.Parameters) >= len(lastRetAs("buildQueryParameters", []*v3.Parameter)) && (forall k int :: 0 <= k && k < len(lastRetAs("buildQueryParameters", []*v3.Parameter)) ==> arg2.Parameters[len(arg2.Parameters) - len(lastRetAs("buildQueryParameters", []*v3.Parameter)) + k] == lastRetAs("buildQueryParameters", []*v3.Parameter)[k])
 //@   at-call assignOperationToPathItem requires opid: arg2 != nil && arg2.OperationId == string(method.Desc.Name())
 //@   at-call assignOperationToPathItem requires verb: arg1 == info.httpMethod
 //@   at-call Set requires key: arg0 == "application/json" || arg0 == info.path
